@@ -504,6 +504,7 @@ impl<T: Elem + SatisfyTraits<Tr>, M: MX, Tr: TrX + ?Sized> World<T, M, Tr> {
             Edge::Cap(api, call, n) => self.do_cap(api, call, ix(n), out),
             Edge::CloneVec { then } => self.do_clone(then, out),
             Edge::Huge { op } => self.do_huge(op, out),
+            Edge::Relocate { slot, then } => self.do_relocate(slot, then, out),
             Edge::CloneFrom { dst, then } => self.do_clone_from(dst, then, out),
             Edge::CloneEmpty { then } => self.do_clone_empty(then, out),
             Edge::CloneEmptyIn { target, then } => self.do_clone_empty_in(target, then, out),
